@@ -8,6 +8,7 @@
 //!                                             attempts left: the second one binds and serves
 //!   rec lonereplier <outages> <max_attempts>  a replier with no requestor on its topic is cut; a requestor arrives afterwards
 //!   rec siblings <outages> <max_attempts>     two subscribers of one client (one shared connection) lose it together
+//!   rec midreg <sub|pub|requestor> <max_attempts>  the connection is lost again between the re-registration and its answer
 //!   rec quiet <outages> <max_attempts>        a subscriber on a topic nobody publishes to during the outages
 //!                                             (nothing resets anything in between); one message at the end
 //! Implementation line: one token per outage: `ok` (traffic after recovery was carried), `lost`, `err:<e>`;
@@ -259,6 +260,107 @@ async fn case(addr: SocketAddr, certs: &Certs, kind: &str, outages: usize, attem
     Ok(out.join(","))
 }
 
+/// `rec midreg <kind> <max_attempts>`: the connection is lost a second time while the stream is re-registering — after its
+/// registration frame went out on the new connection, before the answer came. The peer is scripted (it speaks the wire
+/// protocol over quinn): connection 0 is served until the client cuts it; connection 1 reads the registration and closes
+/// the connection instead of answering; later connections are served again.
+async fn midreg(certs: &Certs, kind: &str, attempts: u32) -> anyhow::Result<String> {
+    use selium_protocol::{BiStream, Frame, MessagePayload};
+    let (chain, key) = selium_server::quic::read_certs(certs.server("localhost.der"), certs.server("localhost.key.der"))?;
+    let roots = selium_server::quic::load_root_store(certs.server("ca.der"))?;
+    let cfg = selium_server::quic::server_config(roots, chain, key, Default::default())?;
+    let endpoint = quinn::Endpoint::server(cfg, "127.0.0.1:0".parse()?)?;
+    let addr = endpoint.local_addr()?;
+    let seen: std::sync::Arc<std::sync::Mutex<Vec<String>>> = Default::default();
+    let seen2 = seen.clone();
+    let peer = tokio::spawn(async move {
+        let mut index = 0usize;
+        while let Some(connecting) = endpoint.accept().await {
+            let Ok(conn) = connecting.await else { continue };
+            let i = index; index += 1;
+            let seen = seen2.clone();
+            tokio::spawn(async move {
+                while let Ok(st) = conn.accept_bi().await {
+                    let mut s = BiStream::from(st);
+                    let first = s.next().await;
+                    if i == 1 { conn.close(1u32.into(), b"lost again"); return; }
+                    let role = match first { Some(Ok(Frame::RegisterSubscriber(_))) => 's', Some(Ok(Frame::RegisterPublisher(_))) => 'p', Some(Ok(Frame::RegisterRequestor(_))) => 'q', _ => return };
+                    if s.send(Frame::Ok).await.is_err() { return; }
+                    let seen = seen.clone();
+                    tokio::spawn(async move {
+                        if role == 's' {
+                            // something for the subscriber to yield on every connection it registers on
+                            let _ = s.send(Frame::Message(MessagePayload { headers: None, message: bytes::Bytes::from(format!("on{i}")) })).await;
+                            while let Some(Ok(_)) = s.next().await {}
+                        } else {
+                            while let Some(Ok(f)) = s.next().await {
+                                if let Frame::Message(m) = f {
+                                    seen.lock().unwrap().push(format!("{i}:{}", String::from_utf8_lossy(&m.message)));
+                                    if role == 'q' {
+                                        let body = format!("r:{}", String::from_utf8_lossy(&m.message));
+                                        let _ = s.send(Frame::Message(MessagePayload { headers: m.headers.clone(), message: bytes::Bytes::from(body) })).await;
+                                    }
+                                }
+                            }
+                        }
+                    });
+                }
+            });
+        }
+    });
+    let flaky = client(addr, certs, backoff(attempts)).await?;
+    let res: anyhow::Result<String> = async {
+        match kind {
+            "sub" => {
+                let mut sub = flaky.subscriber("/verif/midreg").with_decoder(StringCodec).open().await?;
+                match tokio::time::timeout(Duration::from_secs(3), sub.next()).await { Ok(Some(Ok(m))) if m == "on0" => {}, other => return Ok(format!("before:{other:?}").replace(' ', "_")) }
+                flaky.verif_close_connection().await;
+                Ok(match tokio::time::timeout(Duration::from_secs(8), sub.next()).await {
+                    Ok(Some(Ok(m))) if m.starts_with("on") && m != "on0" && m != "on1" => "ok".to_string(),
+                    Ok(Some(Err(e))) => errname(&e),
+                    Ok(Some(Ok(m))) => format!("wrong:{m}"),
+                    Ok(None) => "ended".to_string(),
+                    Err(_) => "hang".to_string(),
+                })
+            }
+            "pub" => {
+                let mut publ = flaky.publisher("/verif/midreg").with_encoder(StringCodec).open().await?;
+                publ.send("before".into()).await?;
+                flaky.verif_close_connection().await;
+                let mut res = "lost".to_string();
+                for j in 0..12 {
+                    match tokio::time::timeout(Duration::from_secs(8), publ.send(format!("m{j}"))).await {
+                        Err(_) => { res = "hang".into(); break; }
+                        Ok(Err(e)) => { res = errname(&e); break; }
+                        Ok(Ok(())) => {}
+                    }
+                    tokio::time::sleep(Duration::from_millis(60)).await;
+                    if seen.lock().unwrap().iter().any(|x| !x.starts_with("0:") && x.contains(":m")) { res = "ok".into(); break; }
+                }
+                Ok(res)
+            }
+            _ => {
+                let mut rq = flaky.requestor("/verif/midreg").with_request_encoder(StringCodec).with_reply_decoder(StringCodec).with_request_timeout(400u64)?.open().await?;
+                let _ = rq.request("before".into()).await;
+                flaky.verif_close_connection().await;
+                let mut res = "lost".to_string();
+                for j in 0..6 {
+                    match tokio::time::timeout(Duration::from_secs(8), rq.request(format!("q{j}"))).await {
+                        Ok(Ok(r)) if r == format!("r:q{j}") => { res = "ok".into(); break; }
+                        Ok(Ok(r)) => { res = format!("wrong:{r}"); break; }
+                        Ok(Err(SeliumError::RequestTimeout)) => { res = "timeout".into(); }
+                        Ok(Err(e)) => { res = errname(&e); break; }
+                        Err(_) => { res = "hang".into(); break; }
+                    }
+                }
+                Ok(res)
+            }
+        }
+    }.await;
+    peer.abort();
+    res
+}
+
 /// a replier that finds the topic's replier slot taken
 async fn displaced(addr: SocketAddr, certs: &Certs, attempts: u32, first_leaves: bool) -> anyhow::Result<String> {
     let n = TOPIC.fetch_add(1, Ordering::SeqCst);
@@ -453,6 +555,7 @@ pub fn run(cfg: &Cfg) {
         cases.push("rec exhaust pub 0".into());
         cases.push("rec pub 3 1".into());
         cases.push("rec replier 6 2".into());
+        for kind in ["sub", "pub", "requestor"] { cases.push(format!("rec midreg {kind} 4")); }
         // a backoff delay longer than the request timeout: reconnecting is not bounded by the timeout of the call that noticed the loss
         cases.push("rec requestor 2 3 slow".into());
         cases.push("rec sub 1 2 slow".into());
@@ -471,6 +574,7 @@ pub fn run(cfg: &Cfg) {
         let res = rt.block_on(async {
             if t[1] == "exhaust" { tokio::time::timeout(Duration::from_secs(150), exhaust(&certs, t[2], t[3].parse().unwrap())).await }
             else if t[1] == "displaced" || t[1] == "takeover" { tokio::time::timeout(Duration::from_secs(60), displaced(addr, &certs, t[2].parse().unwrap(), t[1] == "takeover")).await }
+            else if t[1] == "midreg" { tokio::time::timeout(Duration::from_secs(60), midreg(&certs, t[2], t[3].parse().unwrap())).await }
             else if t[1] == "quiet" { tokio::time::timeout(Duration::from_secs(60), quiet(addr, &certs, t[2].parse().unwrap(), t[3].parse().unwrap())).await }
             else { tokio::time::timeout(Duration::from_secs(60), case(addr, &certs, t[1], t[2].parse().unwrap(), t[3].parse().unwrap())).await }
         });
@@ -497,6 +601,8 @@ pub fn run(cfg: &Cfg) {
                     if line == "TooManyRetries" { Ok(()) } else { Err(format!("C12/C10: a replier whose every registration is refused (another replier stays bound) with a budget of {} attempts: `{line}` instead of too-many-retries", t[2])) }
                 } else if t[1] == "takeover" {
                     if line == "ok" { Ok(()) } else { Err(format!("C12/C10: the waiting replier did not take over after the bound one left: {line}")) }
+                } else if t[1] == "midreg" {
+                    if line == "ok" { Ok(()) } else { Err(format!("C12: the connection was lost again while the {} stream was re-registering (budget {} attempts): {line} instead of recovering on a later attempt", t[2], t[3])) }
                 } else if t[1] == "quiet" {
                     if line == "ok" { Ok(()) } else { Err(format!("C12: a subscriber on a silent topic, {} outages with a budget of {} attempts each: {line}", t[2], t[3])) }
                 } else {
